@@ -124,7 +124,13 @@ func runRes(toks []string) (string, string) {
 		rb.AddWarcHeader("WARC-Date", "2021-05-06T07:08:09Z")
 		rb.AddWarcHeader("Content-Type", ctype)
 		rb.AddWarcHeader("WARC-Target-URI", "http://example.com/")
-		rb.Write(content)
+		if len(content) > thr && fault%2 == 0 {
+			// the content arrives in pieces, one of them ending exactly where the memory part is full
+			rb.Write(content[:thr])
+			rb.Write(content[thr:])
+		} else {
+			rb.Write(content)
+		}
 		return rb
 	}
 	// descriptors leaked by an earlier case are closed by the garbage collector's finalizers at an
